@@ -38,6 +38,50 @@ Theorem c19_lncdf_backward_partial :
 Proof. exact lncdf_backward_identity. Qed.
 Print Assumptions c19_lncdf_backward_partial.
 
+(* ... as a vector-Jacobian product: for EVERY upstream gradient g, of either sign, the value returned on that branch is
+   g * phi(z) / P, and negating the upstream gradient negates it (no absolute value anywhere) *)
+Theorem c19_lncdf_vjp_partial :
+  forall g z P : R, (0 < P)%R -> lncdf_vjp_R g z (ln P) = (g * (std_normal_pdf z / P))%R.
+Proof. exact lncdf_vjp_identity. Qed.
+Print Assumptions c19_lncdf_vjp_partial.
+Theorem c19_lncdf_vjp_odd_in_upstream :
+  forall g z lp : R, lncdf_vjp_R (- g) z lp = (- lncdf_vjp_R g z lp)%R.
+Proof. exact lncdf_vjp_neg. Qed.
+Print Assumptions c19_lncdf_vjp_odd_in_upstream.
+
+(* _NgdInterpTerms.backward (CIQ natural-gradient terms) for one inducing value and one data point: the returned
+   triple is the gradient of  gm * mean + gv * variance + gk * KL(q(u) || p(u))  with respect to the interpolation term
+   k and to the EXPECTATION parameters (eta1, eta2) = (m, m^2 + S) (the natural gradient), for every upstream
+   (gm, gv, gk), wherever S = eta2 - eta1^2 > 0.  Partial: M > 1 inducing values / several data points are tested
+   against torch autograd of a dense closed form. *)
+Theorem c19_ciq_ngd_backward_eta1_partial :
+  forall gm gv gk k e1 e2 : R, (0 < e2 - e1 * e1)%R ->
+    is_derive (fun e1' => ciq1_obj_R gm gv gk k e1' e2) e1
+              (@ciq1_bwd_eta1 TR gm gv gk k (k * e1)%R (e1 / (e2 - e1 * e1))%R).
+Proof. exact ciq1_backward_eta1. Qed.
+Print Assumptions c19_ciq_ngd_backward_eta1_partial.
+Theorem c19_ciq_ngd_backward_eta2_partial :
+  forall gm gv gk k e1 e2 : R, (0 < e2 - e1 * e1)%R ->
+    is_derive (fun e2' => ciq1_obj_R gm gv gk k e1 e2') e2
+              (@ciq1_bwd_eta2 TR gv gk k (1 / (e2 - e1 * e1))%R).
+Proof. exact ciq1_backward_eta2. Qed.
+Print Assumptions c19_ciq_ngd_backward_eta2_partial.
+Theorem c19_ciq_ngd_backward_interp_partial :
+  forall gm gv gk k e1 e2 : R,
+    is_derive (fun k' => ciq1_obj_R gm gv gk k' e1 e2) k
+              (@ciq1_bwd_k TR gm gv ((e2 - e1 * e1) * k)%R e1).
+Proof. exact ciq1_backward_k. Qed.
+Print Assumptions c19_ciq_ngd_backward_interp_partial.
+(* the forward pass saves exactly the quantities those statements are instantiated with *)
+Theorem c19_ciq_ngd_forward_consistent_partial :
+  forall k th1 th2 : R, (th2 < 0)%R ->
+    let S := (1 / (- (1 + 1) * th2))%R in let m := @ciq1_m TR th1 th2 in
+    (0 < (m * m + S) - m * m)%R /\ @ciq1_mean TR k th1 th2 = (k * m)%R /\ th1 = (m / ((m * m + S) - m * m))%R
+    /\ @ciq1_prec TR th2 = (1 / ((m * m + S) - m * m))%R /\ @ciq1_sk TR k th2 = (((m * m + S) - m * m) * k)%R
+    /\ @ciq1_var TR k th2 = (k * k * ((m * m + S) - m * m))%R.
+Proof. exact ciq1_forward_consistent. Qed.
+Print Assumptions c19_ciq_ngd_forward_consistent_partial.
+
 (* _NaturalToMuVarSqrt.backward for one inducing value (and coordinate-wise for diagonal natural
    matrices): the returned pair is the gradient with respect to the EXPECTATION parameters
    (eta1, eta2) = (mu, mu^2 + L^2), i.e. the natural gradient, for every upstream (gmu, gL).
